@@ -310,4 +310,93 @@ def build_extra():
     c = C02.build()
     c.pid = "C16b"
     c.only_verify = ["EventManager._run_handlers_sequential"]
-    return [c]
+    # the same for ordinary events: every conditional handler's condition is evaluated for THAT handler, with its own
+    # merged arguments, right before its turn (C01's dispatch contract)
+    from . import C01
+    c01 = C01.build()
+    c01.pid = "C16c"
+    c01.replay_pid = "C01"
+    c01.only_verify = ["EventManager._run_handlers"]
+    return [c, c01, state_machine_set()]
+
+
+SM = "mpf/devices/state_machine.py"
+
+
+def state_machine_set():
+    """notifier side of 'a template is notified after every change of a device attribute it read': the state machine's
+    virtual attribute `state` (read through the player for persisted machines) announces EVERY change of its
+    observable value - also the one caused by (re)binding the device to a player when its mode starts"""
+    C = ContractSet("C16d", "state machine announces every change of its observable state")
+    C.strings = False
+    common.declare_events(C)
+    C.cls("SystemWideDevice", fields={})
+    C.cls("ModeDevice", fields={})
+    for b in ("SystemWideDevice", "ModeDevice"):
+        C.ext(b + ".device_loaded_in_mode", model=common.noop, trusted_reason="ModeDevice: stores the mode")
+        C.ext(b + ".device_removed_from_mode", model=common.noop, trusted_reason="ModeDevice: forgets the mode")
+    C.cls("Player", fields=dict(var=Opt(Str)))
+    C.ext("Player.__getitem__", model=lambda I, env, a, k: I.read_field(env["self"].ref, "var"),
+          trusted_reason="player variable state_machine_<name> (C11); an unset variable reads as 0/None (falsy)")
+
+    def p_set(I, env, a, k):
+        I.write_field(env["self"].ref, "var", a[1])
+        return NONE
+    C.ext("Player.__setitem__", model=p_set, trusted_reason="player variable state_machine_<name> (C11)")
+    C.cls("RunningShowI", fields={})
+    C.ext("RunningShowI.stop", model=common.noop, trusted_reason="show of the state (C17)")
+    STATE_CFG = Rec(events_when_started=Seq(Str), events_when_stopped=Seq(Str), show_when_active=Opaque("Any"))
+
+    def states(I, name):
+        return I.new_dict((("start", I.fresh(STATE_CFG, name + "[start]")), ("other", I.fresh(STATE_CFG, name + "[other]"))))
+    C.cls("StateMachine", file=SM, bases=["SystemWideDevice", "ModeDevice"], fields=dict(
+        config=Rec(persist_state=Bool, starting_state=Const("start"), states=Init(states)),
+        player=Opt(ObjS("Player")), _state=Opt(Union(Const("start"), Const("other"))), _player_var_name=Str,
+        _show=Opt(ObjS("RunningShowI")), machine=ObjS("MachineController", events=ObjS("EventManager"))))
+
+    def notify(I, env, a, k):
+        emit(I, "notify", attr=a[0], old=a[1], value=a[2])
+        return NONE
+    C.ext("StateMachine.notify_virtual_change", model=notify,
+          trusted_reason="DeviceMonitor.notify_virtual_change: completes the futures of every template subscribed to "
+                         "the attribute")
+    for m_ in ("_add_handlers_for_current_state", "_run_show_for_current_state", "_remove_handlers"):
+        C.ext("StateMachine." + m_, model=(lambda nm: lambda I, env, a, k: (emit(I, nm), NONE)[1])(m_),
+              trusted_reason="transition handlers / show of the current state (not part of the observable value)")
+    C.fn("StateMachine.state", is_property=True, inline=True, no_inv=True)
+
+    def announced(I, value):
+        """the LAST notification for 'state' carries this value (so no subscriber is left with another one)"""
+        evs = [e for e in events_named(I, "notify") if I.pyconst(I.force(e.args["attr"])) == "state"]
+        if not evs:
+            return VBool(False)
+        return VBool(I.eq(evs[-1].args["value"], value))
+    C.helpers["announced"] = announced
+    C.helpers["n_notified"] = lambda I: VInt(len(events_named(I, "notify")))
+    C.trace_helpers = {"announced", "n_notified"}
+    VALUE = Opt(Union(Const("start"), Const("other")))
+    PERSIST_OK = ("a persisted state machine is bound to a player whenever its state is written",
+                  "implies(self.config['persist_state'], self.player is not None)")
+    C.fn("StateMachine.state@setter", params=dict(value=VALUE), requires=[PERSIST_OK],
+         ensures=[("N1: writing the state announces the new observable value, once", "n_notified() == 1 and "
+                                                                                     "announced(self.state)"),
+                  ("the observable state is the written value", "self.state == value")],
+         modifies=["self._state", "self.player.var"], raises={}, emits=lambda I, env, res: emit(
+             I, "notify", attr=VStr("state"), old=NONE, value=env["value"]), call_ensures=["self.state == value"])
+    C.fn("StateMachine.device_loaded_in_mode", params=dict(mode=Opaque("Mode"), player=ObjS("Player")),
+         requires=[("an unloaded device holds no state of its own", "self._state is None and self.player is None"),
+                   ("the persisted value, if any, is one of the configured states",
+                    "player.var is None or player.var == 'start' or player.var == 'other'")],
+         loops_by_text={"events_when_started": LoopSpec(invariant=[], modifies=[])},
+         ensures=[("N2: binding the device to the player of a starting mode changes its observable state (None -> the "
+                   "player's persisted state, or the starting state): the final value is announced, so a template that "
+                   "read the state while the mode was stopped does not stay stale",
+                   "self.state is not None and announced(self.state)")],
+         modifies=["self.player", "self._state", "player.var"], raises={"AssertionError": True}, skip_frame=True)
+    C.fn("StateMachine.device_removed_from_mode", params=dict(mode=Opaque("Mode")),
+         ensures=[("N3: unloading announces that the state is gone (None)", "announced(None) and self._state is None "
+                                                                            "and self.player is None")],
+         modifies=["self.player", "self._state", "self._show"], raises={}, skip_frame=True)
+    C.assume("StateMachine: _add_handlers_for_current_state / _run_show_for_current_state / _remove_handlers are not "
+             "under contract (they do not touch the observable state); two configured states")
+    return C
